@@ -399,9 +399,10 @@ def wildcard_stream(ck, srcs, targets=("sql.sqlite", "sql.duckdb", "sql.bigquery
         for c, s in reversed(ex):
             exd[c] = sorted(set(s))
         want = {c: sorted(set(s)) for c, s in d["excluded"]}
-        if len(set(d["output"])) != len(d["output"]):
-            # hypothesis of c05_select_list_shows_requested (NoDup of the ids translate_wildcards hands to translate_select_items)
-            ck.disagreement("translate_wildcards returned an id twice: %s (program %s)" % (d["output"], src.replace("\n", " | ")[:150]),
+        stars_out = [c for c in d["output"] if any(x[0] == c and x[1] is not None for x in d["cols"])]
+        if len(set(stars_out)) != len(stars_out):
+            # hypothesis of c05_select_list_shows_requested: no STAR id is handed to translate_select_items twice (other ids may repeat: `select {a, a}`)
+            ck.disagreement("translate_wildcards returned a wildcard id twice: %s (program %s)" % (d["output"], src.replace("\n", " | ")[:150]),
                             {"cols": d["cols"], "output": d["output"], "prql": src}, lambda c: None)
         if list(out) != d["output"] or exd != want:
             ck.disagreement("translate_wildcards: implementation differs from Model/Wildcards.v on cols=%s (program %s)" % (k[:200], src.replace("\n", " | ")[:150]),
@@ -862,6 +863,11 @@ def run():
     selectitems_stream(ck, srcs)
     star_stream(ck, recs)
     sstring_stream(ck, ck.n(60, 600) * (3 if broken else 1))
+    import os as _os
+    if _os.environ.get("VERIF_DEBUG"):
+        import collections as _c
+        for k_, v_ in _c.Counter(w.split(":")[0][:80] for w, _, _ in ck.violations).most_common():
+            print("DEBUG-VIOLATIONS", v_, k_)
     ck.proof_broken_violation(found_input=bool(ck.violations))
     ck.assumptions += ["every table has an extra column `zz` that no program mentions, so a `*` the compiler emits expands at run time to more than the compiler knows",
                        "unnamed frame columns (expressions without alias, names shadowed by a later column of the same name) impose no name, only a position"]
